@@ -12,7 +12,7 @@ from ..loops import dotted
 from ..nf import NF, Scope, Poly
 from ..repo import Repo, loc, short, AnalysisError, bind_call, positional_params, param_names
 from ..resolve import Resolver
-from ..sem import TREE_MAPS, leaf_application, result_position, result_position_def, same_ingredients, ingredient_tokens
+from ..sem import TREE_MAPS, leaf_application, result_position, result_position_def, same_ingredients, ingredient_tokens, rejects_input
 
 EXPLANATION = (
     "R1 reads the two helpers by the position of their parameters (net, target_net[, tau]) and per path: the object handed to nnx.update "
@@ -284,6 +284,8 @@ def _guards(nf, fn, cfg, nid, qual):
         if reach[True] == reach[False]:
             continue
         lab = True if reach[True] else False
+        if rejects_input(bn.ast, lab):
+            continue      # input validation (`if target_delay < 1: raise ...`) is no cadence condition
         names = {x.id for x in ast.walk(bn.ast.test) if isinstance(x, ast.Name)}
         if not all(rd[nid].get(nm) == rd[bn.id].get(nm) for nm in names):
             continue
@@ -385,6 +387,31 @@ def _split_args(inner: str):
     return out
 
 
+def _expand_composite_updates(idn, res, repo, q, fn, cfg, calls):
+    """`update(policy, policy_target)` where both are objects of one class of the package whose constructor stores sub-modules in fields
+    (`self.embedding = embedding`): read as one update per field, in field order, at the same site."""
+    out = []
+    for nid, c, k, (oe, te), okey in calls:
+        try:
+            o_id = _ident_in_context(idn, res, repo, q, fn, cfg, nid, oe)
+            t_id = _ident_in_context(idn, res, repo, q, fn, cfg, nid, te)
+        except AnalysisError:
+            out.append((nid, c, k, (oe, te), okey))
+            continue
+        if not (isinstance(o_id, tuple) and isinstance(t_id, tuple) and o_id[0] == "obj" and t_id[0] == "obj" and o_id[1] == t_id[1]):
+            out.append((nid, c, k, (oe, te), okey))
+            continue
+        fields = [f_ for f_ in idn.class_fields(o_id[1]) if f_ != "__init__"]
+        if len(fields) < 2:
+            out.append((nid, c, k, (oe, te), okey))
+            continue
+        for i_, f_ in enumerate(fields):
+            o2 = ast.copy_location(ast.Attribute(value=oe, attr=f_, ctx=ast.Load()), oe)
+            t2 = ast.copy_location(ast.Attribute(value=te, attr=f_, ctx=ast.Load()), te)
+            out.append((nid, c, k, (o2, t2), tuple(okey) + (i_,)))
+    return out
+
+
 def _routine(ck, repo, res, nf, eff, idn, q, state):
     kind, required, allowed, n_expected = CADENCE[q]
     fn = repo.func(q)
@@ -398,6 +425,9 @@ def _routine(ck, repo, res, nf, eff, idn, q, state):
     rec_sig = set(load_signatures().get(q) or [])
     doc_params = {t for p in required for t in re.findall(_IDENT, p) if t in pnames or t in rec_sig or ren.get(t)} - {"C", "Eq", "mod"}
     calls = _helper_calls(repo, res, fn, cfg)
+    if len(calls) < n_expected:
+        # one update of a composite object (a policy made of an embedding and an actor) is the update of each of its sub-modules
+        calls = _expand_composite_updates(idn, res, repo, q, fn, cfg, calls)
     state["n_calls"] += len(calls)
     if len(calls) < n_expected:
         state["short"].append(q.rsplit(".", 1)[1])
